@@ -5,6 +5,13 @@ From H3V Require Import Base.Bytes Base.BytesLemmas Gen.GenVarint Gen.GenCodes G
 From Coq Require Import ZifyBool ZifyNat ZifyN.
 Ltac Zify.zify_post_hook ::= Z.div_mod_to_equations.
 
+(* the identifier lists Settings::decode decides with are those of RFC 9114 7.2.4.1 / the registered settings *)
+Lemma settings_id_lists :
+  fs_forbidden_ids = [0; 2; 3; 4; 5] /\
+  fs_supported_ids = [6; 1; 7; 8; 727725890; 727725891; 51] /\
+  fs_settings_len = 8 /\ fs_settings_min = 2.
+Proof. repeat split. Qed.
+
 (* ---------- T4: error codes ---------- *)
 Lemma fserr_code_table :
   fserr_code FsUnexpectedEnd = Some H3_FRAME_ERROR_rfc /\
@@ -361,7 +368,7 @@ Proof.
   unfold settings_check in *. destruct (settings_scan (S (length p)) p []) as [u|e|s]; eauto. discriminate.
 Qed.
 
-Lemma fd_nil : frame_decode [] = (Err (Incomplete 1), 0).
+Lemma fd_nil : frame_decode [] = (Err (Incomplete fdec_ty_addend), 0).
 Proof. reflexivity. Qed.
 
 Lemma fd_wt v sid r2 : wf_bytes v -> head_of v = HWt sid r2 ->
@@ -406,7 +413,8 @@ Proof.
   intros Hwf H. apply head_cut_inv in H.
   destruct H as [Hne H1 | r1 H1 H2 | ty r1 H1 Hty H2 | ty r1 l r2 H1 Hty H2 Hd Hl].
   - destruct (vi_take_none _ Hwf H1) as (k & r & Hd & _).
-    exists (len v + 1). split.
+    assert (Hadd : fdec_ty_addend <= 1) by (vm_compute; discriminate).
+    exists (len v + fdec_ty_addend). split.
     + unfold frame_decode. rewrite Hd. reflexivity.
     + intros w Hw. rewrite len_app in Hw. assert (w = []) by (apply len_zero_nil; lia). subst w.
       rewrite app_nil_r. apply head_cut_of_reason. apply cut_ty; auto.
@@ -425,14 +433,16 @@ Proof.
       lia.
   - pose proof (take_wf _ _ _ Hwf H1) as Hw1.
     destruct (vi_take_none _ Hw1 H2) as (k & r & Hd & _).
-    exists (len v + 1). split.
+    assert (Hadd : fdec_len_addend <= 1) by (vm_compute; discriminate).
+    exists (len v + fdec_len_addend). split.
     + unfold frame_decode. rewrite (vi_take_some _ _ _ Hwf H1).
       destruct (N.eqb_spec ty fdec_wt_type) as [e|_]; [exfalso; apply Hty; exact e|].
       rewrite Hd. reflexivity.
     + intros w Hw. rewrite len_app in Hw. assert (w = []) by (apply len_zero_nil; lia). subst w.
       rewrite app_nil_r. apply head_cut_of_reason. eapply cut_len; eauto.
   - pose proof (take_wf _ _ _ Hwf H1) as Hw1.
-    exists (2 + l). split.
+    assert (Hadd : fdec_payload_addend <= 2) by (vm_compute; discriminate).
+    exists (fdec_payload_addend + l). split.
     + unfold frame_decode. rewrite (vi_take_some _ _ _ Hwf H1).
       destruct (N.eqb_spec ty fdec_wt_type) as [e|_]; [exfalso; apply Hty; exact e|].
       rewrite (vi_take_some _ _ _ Hw1 H2). cbv zeta.
@@ -1800,7 +1810,7 @@ Qed.
 
 (* T1: the `expected` memo never hides a decodable frame *)
 Lemma fd_incomplete_head v m n : wf_bytes v -> frame_decode v = (Err (Incomplete m), n) ->
-  (v = [] /\ m = 1) \/ (head_of v = HCut /\ memo_sound m v).
+  (v = [] /\ m = fdec_ty_addend) \/ (head_of v = HCut /\ memo_sound m v).
 Proof.
   intros Hwf Hd. destruct (head_of v) as [| |l r2|sid r2|ty p rest] eqn:Hh.
   - apply head_empty_iff in Hh. subst v. rewrite fd_nil in Hd. inversion Hd. auto.
@@ -1819,7 +1829,8 @@ Theorem memo_safety v m n : wf_bytes v -> frame_decode v = (Err (Incomplete m), 
 Proof.
   intros Hwf Hd w Hww Hlen.
   destruct (fd_incomplete_head _ _ _ Hwf Hd) as [[-> ->]|[Hh Hs]].
-  - cbn [app] in *. assert (w = []) by (apply len_zero_nil; lia). subst w. exists 1. apply fd_nil.
+  - assert (Hadd : fdec_ty_addend <= 1) by (vm_compute; discriminate).
+    cbn [app] in *. assert (w = []) by (apply len_zero_nil; lia). subst w. eexists. apply fd_nil.
   - assert (Hwf' : wf_bytes (v ++ w)) by (apply wf_bytes_app; auto).
     destruct (fd_cut _ Hwf' (Hs w Hlen)) as (m' & Hd' & _). eauto.
 Qed.
